@@ -3,6 +3,7 @@ import OnetVerif.Model.C05Inst
 import OnetVerif.Model.C05Conn
 import OnetVerif.Model.C05Chan
 import OnetVerif.Model.C05Reg
+import OnetVerif.Model.C05Agg
 /-! Model for property C05.  The instance (queue, wake-up token, single reader) is `Model/C05Inst.lean`,
 the way from a connection to the instance's queue (receive loop, dispatchers, overlay hand-over,
 `transmitMux`) is `Model/C05Conn.lean`, an instance that receives one of its types through a bounded channel
@@ -16,6 +17,7 @@ structure State where
   srv : List (Nat × St) := []
   conn : Conn.St := {}
   chan : Chan.St := {}
+  agg : Agg.St := {}
 
 def init : State := {}
 
@@ -198,6 +200,49 @@ def chstep (s : State) (toks : List String) : Option (State × String) :=
   | _ => none
 
 
+def showAgg (t : Agg.St) : String :=
+  match t.pc with
+  | .handling _ ms => "in:" ++ Util.showNatList ms
+  | _ => "idle"
+
+def gsettle (t : Agg.St) : Agg.St := Agg.settle (2 * t.queue.length + 8) t
+
+/-- the aggregation class (one instance on a node with `k` children whose type-1 messages are aggregated and whose
+type-3 messages are not; every handler is gated): `gstart <k>`; `gagg <c> <m>` (child c sends an aggregated-type
+message), `gpar <m>` (the parent sends one: dispatched at once), `gacc <m>` (a plain message from child 0), `gexit`
+(the running handler returns) — answer: the batch the running handler was given (`in:<m,…>`) or `idle`, once the
+reader has nothing more to do. -/
+def gstep (s : State) (toks : List String) : Option (State × String) :=
+  let fin (t : Agg.St) : Option (State × String) := some ({ s with agg := t }, showAgg t)
+  let acc (x : Agg.Msg) : Option (State × String) :=
+    match Agg.step s.agg (.accept x) with
+    | some t => fin (gsettle t)
+    | none => some (s, "blocked")
+  match toks with
+  | ["gstart", k] =>
+    match k.toNat? with
+    | some k => if k = 0 || k > 9 then some (s, "bad-op") else some ({ s with agg := { nch := k } }, "ok")
+    | none => some (s, "bad-op")
+  | ["gagg", c, m] =>
+    match c.toNat?, m.toNat? with
+    | some c, some m => if c < s.agg.nch then acc ⟨true, some c, m⟩ else some (s, "bad-op")
+    | _, _ => some (s, "bad-op")
+  | ["gpar", m] =>
+    match m.toNat? with
+    | some m => acc ⟨true, none, m⟩
+    | none => some (s, "bad-op")
+  | ["gacc", m] =>
+    match m.toNat? with
+    | some m => acc ⟨false, some 0, m⟩
+    | none => some (s, "bad-op")
+  | ["gexit"] =>
+    match s.agg.pc with
+    | .handling _ _ => match Agg.step s.agg .reader with
+      | some t => fin (gsettle t)
+      | none => some (s, "blocked")
+    | _ => some (s, "no-handler")
+  | _ => none
+
 /-- `accept <inst> <m>`: hand message m over; `exit <inst>`: the running handler returns; `close
 <inst>`.  After each, the reader runs until it is inside a handler or has nothing to do; the reply
 is what the instance is doing then: `in:<m>`, `idle` or `stopped`. -/
@@ -206,6 +251,9 @@ def step (s : State) (toks : List String) : State × String :=
   | some r => r
   | none =>
   match chstep s toks with
+  | some r => r
+  | none =>
+  match gstep s toks with
   | some r => r
   | none =>
   match toks with
